@@ -81,3 +81,10 @@ func (v *V) havocClosureWrites(e *Env, call *ast.CallExpr) {
 		}
 	}
 }
+
+// hoistable: engine-generated frame and heap-closure facts (binder qo). They constrain only heap
+// versions created at the point where they were generated and are true of every real heap, so when
+// paths are merged they can stay outside the disjunction of the branch-specific facts.
+func hoistable(c string) bool {
+	return len(c) > 17 && c[:17] == "(forall ((qo Int)"
+}
